@@ -168,6 +168,7 @@ def replay_case(pid, body, rep):
     ident = body["case"]["id"]
     if ident.startswith("gen:"):
         _, fmt, ver, clen, first, hx = ident.split(":")
+        hx = hx.split("@")[0]
         recs = [r for r in rec_xdis(d, "gen", [{"fmt": fmt, "tab": list(bytes.fromhex(hx)), "clen": int(clen), "first": int(first), "tables": [ver]}], "r", nproc=1)
                 if r["id"] == ident]
     else:
